@@ -148,7 +148,10 @@ SQN = [f + r for r in "12345678" for f in "abcdefgh"]
 
 
 def king_instances(ob, tier, seed):
-    """instances of a per-king-square family: list of (suffix, colour, square)"""
+    """instances of a per-king-square family: list of (suffix, colour, square); `gen=range:N` gives (i, 0, i) for i < N"""
+    if ob.gen.startswith("range:"):
+        n = int(ob.gen.split(":")[1])
+        return [("i%02d" % i, 0, i) for i in range(n)]
     allv = [(("w" if c == 0 else "b") + "_" + SQN[s], c, s) for c in (0, 1) for s in range(64)]
     if tier == "thorough" or not ob.qsel:
         return allv
